@@ -15,6 +15,7 @@ import (
 	"strings"
 
 	"github.com/foxboron/go-uefi/authenticode"
+	"github.com/foxboron/go-uefi/efi/signature"
 	"github.com/foxboron/go-uefi/pkcs7"
 )
 
@@ -97,8 +98,33 @@ func p7Eval(c *Ctx, cs Case, prop string) {
 			seq := goP7ClassSeq(blob, []*x509.Certificate{prev, cert, prev}, cert)
 			c.Count(cs.Key()+"|seq", true, prop+"/sequence/"+cs.S("certkind")+"/"+strings.ReplaceAll(seq, " ", "-"))
 			if seq != goObs {
-				c.Fail(Failure{Kind: "property", What: "Verify on one parsed object answers differently after earlier Verify calls with other certificates (the success is not bound to this certificate's key)", Case: cs, Go: "fresh object: " + goObs + "; after Verify(signer's certificate): " + seq, Spec: "Spec.cmsVerify=" + spec})
+				c.Fail(Failure{Kind: "property", What: "Verify on one parsed object answers differently after earlier Verify calls with other certificates (the verdict is not bound to this certificate's key)", Case: cs, Go: "fresh object: " + goObs + "; same object after Verify(another certificate), Verify(this one), Verify(the other again): " + seq, Spec: "Spec.cmsVerify=" + spec})
 			}
+		}
+	}
+	// the second entry point of the statement: the same blob as the certificate data of an authenticated-variable
+	// descriptor, asked through EFIVariableAuthentication2.Verify (judged by the Spec alone, not by the stand-alone answer)
+	if cl := cs.S("class"); cl == "seed" || cl == "third-party" || cl == "drop-signed-attrs" || strings.HasPrefix(cl, "forge") || strings.HasPrefix(cl, "two-signers") || len(blob)%8 == 0 {
+		dObs := "ok false"
+		var ok bool
+		var derr error
+		if pan, _ := safely(func() {
+			d := &signature.EFIVariableAuthentication2{AuthInfo: signature.WinCertificateUEFIGUID{CertType: signature.EFI_CERT_TYPE_PKCS7_GUID, CertData: append([]byte{}, blob...)}}
+			ok, derr = d.Verify(cert)
+		}); pan {
+			dObs = "panic"
+		} else if derr != nil {
+			dObs = "err"
+		} else if ok {
+			dObs = "ok true"
+		}
+		c.Class(prop + "/inside-descriptor/" + strings.ReplaceAll(dObs, " ", "-"))
+		if dObs == "panic" {
+			c.Fail(Failure{Kind: "property", What: "EFIVariableAuthentication2.Verify panicked on a descriptor carrying this blob", Case: cs, Go: dObs})
+		}
+		if dObs == "ok true" && spec != "true" {
+			c.Fail(Failure{Kind: "property", What: "verification of an authenticated-variable descriptor carrying this blob succeeded although no signer entry of this certificate carries a valid RSA-SHA256 signature over the attributes as transmitted with a message digest matching the encapsulated content", Case: cs,
+				Go: "EFIVariableAuthentication2.Verify: " + dObs + "; ParsePKCS7+Verify: " + goObs, Spec: "Spec.cmsVerify=" + spec})
 		}
 	}
 	if goObs == "ok true" && spec != "true" {
@@ -388,6 +414,61 @@ func forgeries(c *Ctx, s p7Seed, emit func(class string, b []byte)) {
 		}
 		return false
 	})
+	// the octets that were signed, moved to where the content is: the signer entry loses its signed attributes and the
+	// encapsulated content becomes an element whose contents octets are exactly the DER SET the signature was made
+	// over (an OCTET STRING as CMS producers wrap content, a SEQUENCE as this library wraps it, the SET itself),
+	// under the original content type and under data. The signature is a genuine one by the named certificate, but
+	// over octets that are no longer signed attributes of the blob and with no message digest binding the content:
+	// a verifier that falls back to "signature over the content" (RFC 2315 section 9.3, signer entries without
+	// attributes) when the attributes are absent would accept it.
+	for _, wrap := range []struct {
+		name string
+		tag  byte
+	}{{"octet-string", 0x04}, {"sequence", 0x30}, {"set-itself", 0x31}} {
+		for _, asData := range []bool{false, true} {
+			wrap, asData := wrap, asData
+			if asData && wrap.tag == 0x31 {
+				continue
+			}
+			edit("forge-signed-octets-as-content/"+wrap.name+map[bool]string{false: "/type-kept", true: "/type-data"}[asData], func(r *derNode) bool {
+				sd := sdOf(r)
+				if len(sd.kids) < 4 || !sd.kids[2].compound || len(sd.kids[2].kids) < 1 {
+					return false
+				}
+				set := sd.kids[len(sd.kids)-1]
+				if set.tag != 0x31 || len(set.kids) != 1 {
+					return false
+				}
+				si := set.kids[0]
+				at := p7SignedAttrs(si)
+				if at == nil {
+					return false
+				}
+				signed := at.encode()
+				signed[0] = 0x31
+				for i, k := range si.kids {
+					if k == at {
+						si.kids = append(si.kids[:i:i], si.kids[i+1:]...)
+						break
+					}
+				}
+				el := &derNode{tag: wrap.tag, leaf: signed}
+				if wrap.tag == 0x31 {
+					inner, ok := parseDER(signed)
+					if !ok || len(inner) != 1 {
+						return false
+					}
+					el = inner[0]
+				}
+				eci := sd.kids[2]
+				eci.kids = []*derNode{eci.kids[0], {tag: 0xa0, compound: true, kids: []*derNode{el}}}
+				if asData {
+					eci.kids[0].leaf = []byte{0x2a, 0x86, 0x48, 0x86, 0xf7, 0x0d, 0x01, 0x07, 0x01}
+				}
+				return true
+			})
+		}
+	}
 	edit("forge-signer-identity", func(r *derNode) bool {
 		sd := sdOf(r)
 		if len(sd.kids) == 0 {
@@ -970,6 +1051,10 @@ func c04Gen(c *Ctx) {
 			if kc.kind != "right" && s.right != nil && (class == "seed" || strings.HasPrefix(class, "forge") || strings.HasPrefix(class, "two-signers")) {
 				cs["prevcert"] = hx(s.right.Raw)
 			}
+			// the other order: the signer's certificate asked after a twin (same issuer and serial, another key) was
+			if kc.kind == "right" && s.twin != nil && (class == "seed" || strings.HasPrefix(class, "forge") || strings.HasPrefix(class, "two-signers")) {
+				cs["prevcert"] = hx(s.twin.Raw)
+			}
 			p7Eval(c, cs, "C04")
 		}
 	}
@@ -988,7 +1073,7 @@ func c04Gen(c *Ctx) {
 
 func init() {
 	register("C04", &PropDef{
-		Rule:   "seeds: library-signed data (detached) and SpcIndirectDataContent blobs under six certificate shapes (one CA-issued with issuer different from subject, one whose own signature is sha384WithRSA, one with a hand-encoded UTF8String/emailAddress name), the sbsign/sbvarsign fixtures of the repository, OpenSSL smime/cms blobs when the CLI is present, OpenSSL-shaped CMS blobs built in the harness; each verified under the signer's certificate, a twin certificate (same issuer and serial, another RSA key), Ed25519 and ECDSA twins (same issuer and serial, no RSA key at all) and an unrelated one. Derived blobs: single-bit/byte changes (quick: 40 stratified positions; thorough: every position of blobs <= 2 KiB), a bit flip inside every DER leaf (signature, digest, integers, OIDs), delete/duplicate/swap of the children of every constructed node, truncations, and targeted forgeries (content, content type, certificates, signer identity, message digest, dropped signed attributes, every object identifier outside the certificates replaced by each of seven sibling OIDs alone and together with a content change, six two-signer-entry combinations of {names the certificate, names another} x {valid, damaged signature}, six two-signer-entry combinations over replaced content of {names the certificate, names another} x {original attributes, attributes of the same length re-bound to the replaced content (messageDigest := its SHA-256)} under the original signature in both orders - including forged entry first, original attributes second -, the single re-bound entry, the blob consistently re-signed by another key over replaced content, and that re-signed blob carrying the genuine one (and the reverse) in every place that can hold a blob: unsigned attributes of a signer entry under the SpcNestedSignature / MS RFC 3161 timestamp / timeStampToken / an unknown attribute type with one and two values, a counter-signature attribute holding the other blob's signer entry, an extra certificate, the CRL field, the content or a further content element, the other blob's signer entries appended / prepended, trailing fields of SignedData and of the content info, a second SignedData). Every case is non-trivial; distinct = distinct (blob, certificate).",
+		Rule:   "seeds: library-signed data (detached) and SpcIndirectDataContent blobs under six certificate shapes (one CA-issued with issuer different from subject, one whose own signature is sha384WithRSA, one with a hand-encoded UTF8String/emailAddress name), the sbsign/sbvarsign fixtures of the repository, OpenSSL smime/cms blobs when the CLI is present (including -noattr: signer entries without signed attributes, the signature made directly over the content octets, RFC 2315 section 9.3), OpenSSL-shaped CMS blobs built in the harness (with and without signed attributes, attached and detached); each verified under the signer's certificate, a twin certificate (same issuer and serial, another RSA key), Ed25519 and ECDSA twins (same issuer and serial, no RSA key at all) and an unrelated one. Derived blobs: single-bit/byte changes (quick: 40 stratified positions; thorough: every position of blobs <= 2 KiB), a bit flip inside every DER leaf (signature, digest, integers, OIDs), delete/duplicate/swap of the children of every constructed node, truncations, and targeted forgeries (content, content type, certificates, signer identity, message digest, dropped signed attributes, the signed attributes dropped AND the octets that were signed (their DER SET) moved to where the content is - as the contents octets of an OCTET STRING / of a SEQUENCE / as the SET itself, under the original content type and under data -, so that the genuine signature is one over the content of a blob that has no signed attributes and no message digest at all, every object identifier outside the certificates replaced by each of seven sibling OIDs alone and together with a content change, six two-signer-entry combinations of {names the certificate, names another} x {valid, damaged signature}, six two-signer-entry combinations over replaced content of {names the certificate, names another} x {original attributes, attributes of the same length re-bound to the replaced content (messageDigest := its SHA-256)} under the original signature in both orders - including forged entry first, original attributes second -, the single re-bound entry, the blob consistently re-signed by another key over replaced content, and that re-signed blob carrying the genuine one (and the reverse) in every place that can hold a blob: unsigned attributes of a signer entry under the SpcNestedSignature / MS RFC 3161 timestamp / timeStampToken / an unknown attribute type with one and two values, a counter-signature attribute holding the other blob's signer entry, an extra certificate, the CRL field, the content or a further content element, the other blob's signer entries appended / prepended, trailing fields of SignedData and of the content info, a second SignedData). On seeds and targeted forgeries the question is also asked of ONE parsed object that answers for several certificates in turn, in both orders: the twin / unrelated / non-RSA certificate after the signer's certificate (Verify(signer), Verify(this), Verify(signer), Verify(this)) and the signer's certificate after a twin with the same issuer and serial (Verify(twin), Verify(signer), Verify(twin), Verify(signer)); the answer must be the one a fresh object gives. On the same classes (and an eighth of the random mutations) the blob is also verified as the certificate data of an authenticated-variable descriptor (EFIVariableAuthentication2.Verify) and a success there is judged by the Spec as well. Every case is non-trivial; distinct = distinct (blob, certificate).",
 		Assume: []string{"x509.ParseCertificates and Certificate.CheckSignature are opaque Go library code; RSA/SHA-256 on the model side are the executable Lean implementations, compared with Go's verdict on every case"},
 		Eval:   c04Eval, Gen: c04Gen,
 	})
